@@ -103,6 +103,14 @@ def shard(a):
                 ys.append(''.join(alt if i in idx else c for i, c in enumerate(v)))
         for y in ys:
             prop({'mod': name, 'x': v, 'y': y}, res)
+    # one separator-like character at every position (both ends included) of a few numbers: the pair counts wherever
+    # compact() ignores the character, whatever the presentation probe says about it
+    for v in gen.pool(name)[:8]:
+        if len(v) > 40:
+            continue
+        for c in (' ', '-', '.', '/', ':', ',', '\t'):
+            for i in range(len(v) + 1):
+                prop({'mod': name, 'x': v, 'y': v[:i] + c + v[i:]}, res)
     used = res.hist['pair:accept'] + res.hist['pair:reject']
     res.notes['pairs_per_module'] = {name: used}
     return res
